@@ -432,9 +432,15 @@ func RunAd(sc *AdScenario, obs *AdObs) *AdDiff {
 			fmt.Fprintf(&wantRaw, "TargetType = %q\n", wantTail[1])
 		}
 	}
-	hasSecret := false
+	hasSecret, allAccepted := false, true
 	for _, it := range wad.Items {
 		hasSecret = hasSecret || it.Secret
+	}
+	for _, ln := range order {
+		if o := Ask(items[ln].val); !o.Accepts {
+			allAccepted = false
+			obs.ValuesOutside++
+		}
 	}
 	for vi, v := range variants {
 		for _, kind := range []string{"parse", "parseMax", "raw", "skip"} {
@@ -463,6 +469,9 @@ func RunAd(sc *AdScenario, obs *AdObs) *AdDiff {
 				continue
 			}
 			if r.Err != nil {
+				if (kind == "parse" || kind == "parseMax") && !allAccepted {
+					continue // a rendered text the full parser rejects: outside the statement
+				}
 				return &AdDiff{sig("error"), fmt.Sprintf("%s fails on %s framing: %v", kind, v.name, r.Err)}
 			}
 			if r.RestErr != nil || !bytes.Equal(r.Rest, wantRest) || r.Unread != 0 {
